@@ -327,6 +327,31 @@ def collinear_trench_differs(g, w, w2, sp, d, fpt, spherical):
         n += 1
     if not n:
         return False
+    # (a) the library's own distance_to_plane of each such feature in the two worlds (features are given a name for the purpose: names influence nothing else)
+    wa, wb = copy.deepcopy(w), copy.deepcopy(w2)
+    names = []
+    for k, (f, f2) in enumerate(zip(wa.get("features", []), wb.get("features", []))):
+        if f.get("model") in ("subducting plate", "fault"):
+            cs = f["coordinates"]
+            if any(abs((cs[i + 1][0] - cs[i][0]) * (cs[i + 2][1] - cs[i + 1][1]) - (cs[i + 1][1] - cs[i][1]) * (cs[i + 2][0] - cs[i + 1][0])) <=
+                   1e-6 * math.hypot(cs[i + 1][0] - cs[i][0], cs[i + 1][1] - cs[i][1]) * math.hypot(cs[i + 2][0] - cs[i + 1][0], cs[i + 2][1] - cs[i + 1][1]) for i in range(len(cs) - 2)):
+                f["name"] = f2["name"] = "collinear%d" % k
+                names.append(f["name"])
+    wd = proto.workdir("C08_replay")
+    pa, pb = os.path.join(wd, "col_a.wb"), os.path.join(wd, "col_b.wb")
+    json.dump(wa, open(pa, "w")); json.dump(wb, open(pb, "w"))
+    qa, qb = to3(g, sp, d), to3(g, list(fpt(sp[0], sp[1])), d)
+    dl = ["world a %s -" % pa, "world b %s -" % pb]
+    for nm in names:
+        dl.append("dist a %s %s %s" % (nm, " ".join(fhex(v) for v in qa), fhex(d)))
+        dl.append("dist b %s %s %s" % (nm, " ".join(fhex(v) for v in qb), fhex(d)))
+    rc, out, err = proto.run_harness(dl)
+    if rc == 0 and len(out) == len(dl) and out[:2] == ["ok", "ok"]:
+        for k in range(len(names)):
+            a, b = parse_answer(out[2 + 2 * k]), parse_answer(out[3 + 2 * k])
+            if a[0] != b[0] or (a[0] == "ok" and any(not close_vals(x, y) for x, y in zip(a[1], b[1]))):
+                return True
+    # (b) the Bezier kernel on the coordinates
     rc, out, err = proto.run_harness(lines)
     if rc != 0 or len(out) != len(lines):
         return False
